@@ -383,32 +383,26 @@ func onceRule(p *Prog, r *Report, rule string) {
 			_, lp := loopSource(pdr, b)
 			// forward search from the callback avoiding append blocks
 			bad := ""
-			seen := map[*ssa.BasicBlock]bool{}
-			var stack []*ssa.BasicBlock
 			if _, here := appendBlocks[b]; !here {
-				stack = append(stack, b.Succs...)
-			}
-			for len(stack) > 0 && bad == "" {
-				x := stack[len(stack)-1]
-				stack = stack[:len(stack)-1]
-				if seen[x] {
-					continue
-				}
-				seen[x] = true
-				if _, isApp := appendBlocks[x]; isApp {
-					continue
-				}
-				if lp != nil && x == lp.head {
-					bad = "the next iteration"
-					break
-				}
-				if len(x.Succs) == 0 {
-					if ret, isRet := x.Instrs[len(x.Instrs)-1].(*ssa.Return); isRet {
-						bad = "a return at " + p.ipos(ret)
-						break
+				forwardFrom(b, func(x *ssa.BasicBlock) bool {
+					if bad != "" {
+						return false
 					}
-				}
-				stack = append(stack, x.Succs...)
+					if _, isApp := appendBlocks[x]; isApp {
+						return false
+					}
+					if lp != nil && x == lp.head {
+						bad = "the next iteration"
+						return false
+					}
+					if len(x.Succs) == 0 {
+						if ret, isRet := x.Instrs[len(x.Instrs)-1].(*ssa.Return); isRet {
+							bad = "a return at " + p.ipos(ret)
+							return false
+						}
+					}
+					return true
+				})
 			}
 			r.Check(bad == "", rule, "ProcessDecidedRounds:callback->processed-append", p.ipos(in), fnName(pdr), "after delivering a block the round is always marked processed",
 				"after the commit callback ran, "+bad+" can be reached without appending the round to the processed list: the round stays pending, is processed again on the next pass and its transactions are committed a second time in a new block")
@@ -583,30 +577,20 @@ func c02persist(p *Prog, r *Report) {
 			}
 		}
 		if !stored {
-			seen := map[*ssa.BasicBlock]bool{}
-			stack := append([]*ssa.BasicBlock{}, b.Succs...)
-			for len(stack) > 0 && bad == "" {
-				x := stack[len(stack)-1]
-				stack = stack[:len(stack)-1]
-				if seen[x] {
-					continue
+			forwardFrom(b, func(x *ssa.BasicBlock) bool {
+				if bad != "" {
+					return false
 				}
-				seen[x] = true
-				hit := false
 				for _, in := range x.Instrs {
 					if isStoring(in) {
-						hit = true
-						break
+						return false
 					}
 					if ret, ok := in.(*ssa.Return); ok && succ[ret] {
 						bad = p.ipos(ret)
 					}
 				}
-				if hit {
-					continue
-				}
-				stack = append(stack, x.Succs...)
-			}
+				return true
+			})
 		}
 		r.Check(bad == "", rule, "commit:SetBlock-after-StateHash", p.ipos(s), fnName(commit), "the block is stored again after the application's answer was written into it",
 			"core.commit can succeed (return at "+bad+") without storing the block after StateHash/receipts were set: the copy persisted by ProcessDecidedRounds before the callback lacks them; the only re-store is inside signBlock, reached only if the node belongs to the block's validator set (late joiner replaying history, removed validator)")
